@@ -22,5 +22,5 @@ DesignOK ==
   /\ (Match(pc, CanonC(t, "complex128")) \/ PrintT(<<"DESIGN", "C", ti, pc.k, pc.s>>))
   /\ (Match(pp, CanonPy(t, "complex128")) \/ PrintT(<<"DESIGN", "Py", ti, pp.k, pp.s>>))
 
-ASSUME "S6_TREES_OUT" \in DOMAIN IOEnv => JsonSerialize(IOEnv.S6_TREES_OUT, TreeSeq \o SetToSeq(MultiIdxTrees))
+ASSUME "S6_TREES_OUT" \in DOMAIN IOEnv => JsonSerialize(IOEnv.S6_TREES_OUT, TreeSeq)
 =============================================================================
